@@ -460,7 +460,7 @@ PLANS["C11"] = {
     "title": "no input file can crash, hang or corrupt the reader",
     "rule": ("exhaustive enumeration of finite neighbourhoods of 13 embedded valid files (6 LP, 5 MPS incl. SOS/REFROW, 2 basis): mode tok = every sequence of <= k tokens over a 24/33/11-token alphabet appended to each valid prefix; "
              "mode mut = every single token edit (delete, duplicate, replace by each alphabet token, swap) at every token position and every byte edit (delete, 0x00, 0xFF, newline, ':', '/', '-', '9') at every byte position, radius=2 adds "
-             "every pair of token edits within a 6-token window; mode rec = every sequence of <= k whole records (lines) from a 19/14/8-record alphabet after each valid prefix (sections out of order, repeated and interleaved, records of one section inside another); mode own = every token replaced by every other distinct token of the same file (cross references such as a ranged row named as OBJNAME, 40k files); mode trunc = every byte prefix, plain and as a gzip/bzip2 stream cut at every byte; mode long = names, lines and digit strings around the internal buffer sizes "
+             "every pair of token edits within a 6-token window; mode rec = every sequence of <= k whole records (lines) from a 21/14/8-record alphabet after each valid prefix (sections out of order, repeated and interleaved, records of one section inside another); mode own = every token replaced by every other distinct token of the same file (cross references such as a ranged row named as OBJNAME, 40k files); mode trunc = every byte prefix, plain and as a gzip/bzip2 stream cut at every byte; mode long = names, lines and digit strings around the internal buffer sizes "
              "(126..256, 131070..131073 characters, 1..4000 digits). Each input goes through mpq_QSread_prob (and via=reader: the line-reader API with a memory error collector, every record walked and printed) or the basis readers; "
              "oracle: the forked worker survives (sanitizer build), returns within 20 s, NULL or a problem that passes the full query-conformance dump against its own read-back, can be written in both formats, solved and freed; "
              "fd 1/2 stay empty; allocation balance is zero; non-trivial = input differs from every base file and is not empty. Inputs with exponents of >= 5 digits are out of scope as the property says"),
@@ -471,6 +471,7 @@ PLANS["C11"] = {
     "bounds": {"quick": "token sequences: LP <= 3, MPS <= 2, basis <= 4; all single token/byte edits of the 13 base files; all truncations incl. compressed; length family",
                "thorough": "token sequences: LP <= 4 (1.38M), MPS <= 3, basis <= 5; all pairs of token edits within a 6-token window for basis and LP files"},
     "evidence": {"states": ["instances"], "transitions": ["executions"], "nontrivial": ["instances_nontrivial"]},
+    "deadline": {"quick": 900, "thorough": 1500},
     "assumptions": ["the claim is over the enumerated neighbourhoods, not over all byte strings of up to 64 KiB",
                     "sanl1 = sanitizer build with the one-level mpf ladder (the solve after a successful read is a smoke test, not the subject)"],
 }
